@@ -724,6 +724,365 @@ def judge_compile(ctx, cfg, opt, model, obs, user, out, after, here):
                       dict(got=after['derived'], want=want_d))
 
 
+# ============================================================================= [Fitting] / [Derive] sections
+SETUP_OUT = ['ok', 'KeyError', 'ValueError', 'prior-error', 'unsupported']
+OPNAME = ['enable_fit', 'disable_fit', 'set_mode', 'set_boundary', 'set_factor_boundary', 'set_prior', 'enable_derived',
+          'disable_derived', 'compile', 'update_model']
+
+
+def typed_tok(key, v):
+    """one section entry as ParameterParser.transform typed it"""
+    k = C.S(key)
+    if isinstance(v, bool):
+        return '%s 0 %s' % (k, C.N(1 if v else 0))
+    if isinstance(v, float):
+        return '%s 1 %s' % (k, C.F(v))
+    if isinstance(v, str):
+        return '%s 2 %s' % (k, C.S(v))
+    if isinstance(v, list) and all(isinstance(x, float) for x in v):
+        return '%s 3 %s' % (k, C.L(v))
+    if isinstance(v, list) and all(isinstance(x, str) for x in v):
+        return '%s 4 %s' % (k, C.L(v, C.S))
+    raise C.InfraError('untyped section value %r' % (v,))
+
+
+def read_ops(d):
+    def one():
+        k = d.nat()
+        name = d.str()
+        a, b = d.flt(), d.flt()
+        text = d.str()
+        pk, pa, pb = d.nat(), d.flt(), d.flt()
+        if k in (3, 4):
+            return (OPNAME[k], name, (a, b))
+        if k == 2:
+            return (OPNAME[k], name, text)
+        if k == 5:
+            return (OPNAME[k], name, (pk, pa, pb))
+        return (OPNAME[k], name)
+    return d.list(one)
+
+
+def truthy(v):
+    return bool(v)
+
+
+def text_truth(text):
+    """what a yes/no value written in an input file means (the documented words plus 0/1), independent of the parser's typing"""
+    t = text.strip().strip('"').lower()
+    if t in ('false', 'no', 'nope', 'no-way', 'hell-no', '0', '0.0', ''):
+        return False
+    return True
+
+
+def gen_section(rng, cfg):
+    """lines of a [Fitting] and a [Derive] section over the fixture's parameters (text as written in an input file)"""
+    from harness import c08
+    fitn = [p[0] for p in cfg['model']] + [p[0] for p in cfg['obs']]
+    dern = [d[0] for d in cfg['dmodel']] + [d[0] for d in cfg['dobs']]
+    npar = int(rng.integers(1, min(4, len(fitn)) + 1))
+    chosen = [fitn[i] for i in rng.permutation(len(fitn))[:npar]]
+    if rng.random() < 0.07:
+        chosen.append('no_such_param')
+    lines = []
+
+    def num(v):
+        return repr(float(v))
+    for n in chosen:
+        opts = [o for o in ('fit', 'bounds', 'mode', 'factor', 'prior') if rng.random() < 0.5]
+        if not opts:
+            opts = ['fit']
+        for o in opts:
+            if o == 'fit':
+                v = str(rng.choice(['True', 'False', 'true', 'yes', 'no', 'Yup', 'nope', '1', '0', 'maybe']))
+            elif o == 'bounds':
+                b = rnd_bounds(rng, rng.random() < 0.8)
+                v = '%s, %s' % (num(b[0]), num(b[1]))
+            elif o == 'factor':
+                v = '%s, %s' % (num(rng.uniform(0.01, 1)), num(rng.uniform(1, 20)))
+            elif o == 'mode':
+                v = str(rng.choice(['log', 'linear', 'LOG', 'Linear', 'logarithmic'], p=[.36, .36, .12, .12, .04]))
+            else:
+                call = c08.gen_call(rng, int(rng.integers(0, 4)))
+                v = '"%s"' % c08.render(rng, call).strip()
+                r = rng.random()
+                if r < 0.03:
+                    v = '"UniForm(bounds=(1, 2))"'             # unknown class
+                elif r < 0.06:
+                    v = '"LogUniform(-1, 2)"'                  # positional arguments
+                elif r < 0.09:
+                    v = '"LogUniform(lin_bounds=(-1, 2))"'     # domain error
+                elif r < 0.11:
+                    v = '"Uniform(mean=1)"'                    # bad keyword
+            key = n + ':' + o
+            r = rng.random()
+            if r < 0.03:
+                key = n + ':' + o + 's' if o != 'bounds' else n + ':bound'      # misspelt option
+            elif r < 0.04:
+                key = n + o                                                       # no colon
+            elif r < 0.05:
+                key = n + ':' + o + ':x'                                          # two colons
+            elif r < 0.06 and o in ('bounds', 'factor'):
+                v = v + ', 3.0' if rng.random() < 0.5 else v.split(',')[0] + ','  # not a pair: outside the documented shapes
+            elif r < 0.07 and o == 'mode':
+                v = 'true'                                                        # typed as a bool, not a string
+            lines.append((key, v))
+    lines = [lines[i] for i in rng.permutation(len(lines))]
+    dlines = []
+    for n in dern + (['no_such_derived'] if rng.random() < 0.06 else []):
+        if rng.random() < 0.6:
+            key = n + (':compute' if rng.random() < 0.93 else ':computed')
+            dlines.append((key, str(rng.choice(['True', 'False', 'yes', 'no', '0']))))
+    dlines = [dlines[i] for i in rng.permutation(len(dlines))]
+    return lines, dlines
+
+
+def parse_sections(lines, dlines):
+    """write the input file, read it with the real ParameterParser; returns (parser, typed fitting, typed derive)"""
+    import tempfile
+    import shutil
+    import os
+    from taurex.parameter import ParameterParser
+    d = tempfile.mkdtemp()
+    try:
+        fn = os.path.join(d, 'verif.par')
+        with open(fn, 'w') as fh:
+            fh.write('[Fitting]\n')
+            for k, v in lines:
+                fh.write('%s = %s\n' % (k, v))
+            fh.write('[Derive]\n')
+            for k, v in dlines:
+                fh.write('%s = %s\n' % (k, v))
+        pp = ParameterParser()
+        pp.read(fn)
+    finally:
+        shutil.rmtree(d, ignore_errors=True)
+    return pp, list(pp._raw_config['Fitting'].items()), list(pp._raw_config['Derive'].items())
+
+
+def make_recording_optimizer(model, obs):
+    from taurex.optimizer.optimizer import Optimizer
+    calls = []
+
+    class Recording(Optimizer):
+        pass
+    for name in ('enable_fit', 'disable_fit', 'set_mode', 'set_boundary', 'set_factor_boundary', 'set_prior',
+                 'enable_derived', 'disable_derived'):
+        def wrap(self, *a, _n=name):
+            calls.append((_n,) + a)
+            return getattr(Optimizer, _n)(self, *a)
+        setattr(Recording, name, wrap)
+    return Recording('verif', observed=obs, model=model), calls
+
+
+def real_setup(pp, opt):
+    """run the real setup_optimizer; classify the outcome"""
+    import traceback
+    try:
+        pp.setup_optimizer(opt)
+        return 0, None
+    except Exception as e:
+        names = [f.name for f in traceback.extract_tb(e.__traceback__)]
+        if 'create_prior' in names:
+            return 3, repr(e)
+        if isinstance(e, KeyError):
+            return 1, repr(e)
+        if isinstance(e, ValueError):
+            return 2, repr(e)
+        return 4, repr(e)
+
+
+def norm_calls(calls):
+    out = []
+    for c in calls:
+        if c[0] in ('set_boundary', 'set_factor_boundary'):
+            out.append((c[0], c[1], (float(c[2][0]), float(c[2][1]))))
+        elif c[0] == 'set_prior':
+            lo_hi = (KINDS.index(type(c[2]).__name__) if type(c[2]).__name__ in KINDS else -1,)
+            out.append((c[0], c[1], lo_hi))
+        else:
+            out.append(tuple(c))
+    return out
+
+
+def run_section(ctx, case, check_order=True):
+    from taurex.core.priors import PriorMode
+    cfg = case['cfg']
+    cfg = dict(cfg, model=[(p[0], p[1], bool(p[2]), tuple(p[3]), float(p[4])) for p in (cfg.get('model') or [])],
+               obs=[(p[0], p[1], bool(p[2]), tuple(p[3]), float(p[4])) for p in cfg['obs']],
+               dmodel=[tuple(d) for d in (cfg.get('dmodel') or [])], dobs=[tuple(d) for d in cfg['dobs']])
+    model, obs = make_pair(cfg)
+    mt, ot = settings_of(model, obs)
+    cfg = dict(cfg, model=[(n, m, f, (float(b[0]), float(b[1])), float(v)) for n, m, f, b, v in mt],
+               obs=[(n, m, f, (float(b[0]), float(b[1])), float(v)) for n, m, f, b, v in ot],
+               dmodel=derived_view(model), dobs=derived_view(obs))
+    lines = [tuple(x) for x in case['fitting']]
+    dlines = [tuple(x) for x in case['derive']]
+    small = dict(type='section', cfg=cfg, fitting=lines, derive=dlines)
+    try:
+        pp, tf, td = parse_sections(lines, dlines)
+    except Exception as e:
+        ctx.malformed_outcome('section:configobj:' + type(e).__name__)
+        return
+    opt, calls = make_recording_optimizer(model, obs)
+    init = observe(opt, model, obs)
+    out, err = real_setup(pp, opt)
+    # ---- the model
+    z10, z90 = z1090()
+    try:
+        d = ctx.model().call('c07.setup', C.F(z10), C.F(z90), C.L(cfg['model'], param_tok), C.L(cfg['obs'], param_tok),
+                             C.L(cfg['dmodel'], lambda x: C.S(x[0]) + ' ' + C.N(1 if x[1] else 0)),
+                             C.L(cfg['dobs'], lambda x: C.S(x[0]) + ' ' + C.N(1 if x[1] else 0)),
+                             C.L(tf, lambda kv: typed_tok(kv[0], kv[1])), C.L(td, lambda kv: typed_tok(kv[0], kv[1])))
+    except C.ModelError as e:
+        ctx.mismatch('model driver accepts the section', small, dict(error=str(e)))
+        return
+    mout = d.nat()
+    mops = read_ops(d)
+    m_after = read_obs(d)
+    m_comp = read_obs(d)
+    has_spec = d.nat()
+    if mout == 4:
+        # value shapes outside the documented ones (bounds/factor not a pair of numbers, mode not a string): recorded only
+        ctx.malformed_outcome('section:unsupported-shape:' + (SETUP_OUT[out] if out < 4 else (err or '').split('(')[0]))
+        return
+    if out == 4:
+        ctx.violation('section:unexpected-exception', 'setup_optimizer raised something other than KeyError/ValueError/a prior '
+                      'error on a section with documented value shapes', small, dict(error=err))
+        return
+    try:
+        after = observe(opt, model, obs)
+    except Exception as e:
+        ctx.violation('section:observable-raises', 'after setup_optimizer a parameter tuple is malformed or a public view raises',
+                      small, dict(error=repr(e)))
+        return
+    user = {c[1]: c[2] for c in calls if c[0] == 'set_prior'}
+    ctx.bucket('section:' + SETUP_OUT[out])
+    ctx.check_eq('setup_optimizer outcome (ok/KeyError/ValueError/prior error)', out, mout, small)
+    rc = norm_calls(calls)
+    mc = [(o[0], o[1], (o[2][0],)) if o[0] == 'set_prior' else o for o in mops]
+    ok_calls = len(rc) == len(mc) and all(
+        a[:2] == b[:2] and (len(a) < 3 or (C.close(list(a[2]), list(b[2]), rel=1e-12) if isinstance(a[2], tuple) else a[2] == b[2]))
+        for a, b in zip(rc, mc))
+    ctx.disagreements_checked += 1
+    if not ok_calls:
+        ctx.mismatch('setup_optimizer: optimizer calls made (kind, name, arguments, order)', small, dict(impl=rc, model=mc))
+    cmp_obs(ctx, 'after setup_optimizer', after, m_after, small)
+    # ---- compile afterwards (what fit() does next)
+    try:
+        opt.compile_params()
+        cout = 0
+    except ValueError:
+        cout = 2
+    except Exception as e:
+        ctx.violation('section:compile-raises', 'compile_params after setup_optimizer raised something other than ValueError',
+                      small, dict(error=repr(e)))
+        return
+    comp = observe(opt, model, obs)
+    ctx.check_eq('after setup_optimizer + compile: outcome', cout, m_comp['out'], small)
+    cmp_obs(ctx, 'after setup_optimizer + compile', comp, m_comp, small)
+    nontrivial = out == 0 and len(calls) >= 3
+    ctx.case(key=('section', tuple(sorted(set(k.split(':')[-1] for k, _ in tf))), out, cout) if nontrivial else None,
+             sample=dict(fitting=lines, derive=dlines, calls=[c[:2] for c in calls], names=comp['names']),
+             bucket='section')
+    if has_spec and out == 0:
+        s_out = d.nat()
+        s_entries = d.list(lambda: (d.nat(), d.str(), d.nat(), d.flt(), d.flt()))
+        s_pri = d.list(lambda: (d.nat(), d.flt(), d.flt(), d.flt(), d.flt()))
+        s_der = d.list(d.str)
+        s_names = d.list(d.str)
+        # the specification evaluated by the driver agrees with what the real code compiled
+        ctx.check_eq('implied (sectionSettings): outcome', cout, s_out, small)
+        if cout == 0:
+            ctx.check_eq('implied (sectionSettings): names', comp['names'], s_names, small)
+            ctx.check_eq('implied (sectionSettings): derived', comp['derived'], s_der, small)
+            ctx.check_eq('implied (sectionSettings): prior classes', [p[0] for p in comp['priors']], [p[0] for p in s_pri], small)
+            ctx.check_close('implied (sectionSettings): prior boundaries', [x for p in comp['priors'] for x in p[1:]],
+                            [x for p in s_pri for x in p[3:]], small, rel=1e-11, abs_=1e-13)
+    # ---------------------------------------------------- predicates on the implementation
+    fitnames = set(r[0] for r in init['model']) | set(r[0] for r in init['obs'])
+    dernames = set(r[0] for r in init['dmodel']) | set(r[0] for r in init['dobs'])
+    wellkeyed = all(k.count(':') == 1 for k, _ in tf) and all(k.count(':') == 1 for k, _ in td)
+    mentioned = [k.split(':')[0] for k, _ in tf] if wellkeyed else []
+    mentioned_d = [k.split(':')[0] for k, v in td if k.split(':')[1] == 'compute'] if wellkeyed else []
+    unknown = [n for n in mentioned if n not in fitnames] + [n for n in mentioned_d if n not in dernames]
+    if out == 0 and unknown:
+        ctx.violation('section:unknown-name-accepted', 'setup_optimizer accepted a section naming an unknown parameter', small,
+                      dict(unknown=unknown))
+    if out == 0 and not wellkeyed:
+        ctx.violation('section:bad-key-accepted', 'setup_optimizer accepted a key that is not name:option', small)
+    ignored = [k for k, _ in tf if k.count(':') == 1 and k.split(':')[1] not in ('fit', 'bounds', 'mode', 'factor', 'prior')]
+    ignored += [k for k, _ in td if k.count(':') == 1 and k.split(':')[1] != 'compute']
+    if out == 0 and ignored:
+        ctx.bucket('section:unknown-option-silently-ignored')
+    if out == 0:
+        # the section describes the settings: every mentioned parameter as written, everything else untouched
+        opts = {}
+        for k, v in tf:
+            n, o = k.split(':')
+            opts.setdefault(n, {})[o] = v
+        raw_fit = {k.split(':')[0]: v for k, v in lines if k.endswith(':fit')}
+        raw_comp = {k.split(':')[0]: v for k, v in dlines if k.endswith(':compute')}
+        for tab in ('model', 'obs'):
+            for rb, ra in zip(init[tab], after[tab]):
+                n = rb[0]
+                if n not in opts:
+                    if ra != rb:
+                        ctx.violation('section:frame', 'setup_optimizer changed a parameter the section does not mention', small,
+                                      dict(name=n, before=rb, after=ra))
+                    continue
+                o = opts[n]
+                want_fit = text_truth(raw_fit[n]) if n in raw_fit else False
+                b0, b1 = rb[3], rb[4]
+                if truthy(o.get('factor')):
+                    b0, b1 = o['factor'][0] * rb[5], o['factor'][1] * rb[5]
+                if truthy(o.get('bounds')):
+                    b0, b1 = o['bounds'][0], o['bounds'][1]
+                mode = rb[1]
+                if truthy(o.get('mode')):
+                    mode = 0 if o['mode'].lower() == 'linear' else 1
+                want = (n, mode, want_fit, float(b0), float(b1), rb[5])
+                if not (ra[:3] == want[:3] and C.close(list(ra[3:]), list(want[3:]), rel=1e-13)):
+                    ctx.violation('section:as-written', 'after setup_optimizer a mentioned parameter is not as the section says',
+                                  small, dict(name=n, got=ra, want=want))
+                if 'prior' in o:
+                    from taurex.parameter.factory import create_prior
+                    ref = create_prior(o['prior'])
+                    got = user.get(n)
+                    if got is None or type(got) is not type(ref) or got.params() != ref.params():
+                        ctx.violation('section:prior', 'the prior written in the section is not the one set', small, dict(name=n))
+        dopts = {k.split(':')[0]: v for k, v in td if k.split(':')[1] == 'compute'}
+        for tab in ('dmodel', 'dobs'):
+            for rb, ra in zip(init[tab], after[tab]):
+                want = text_truth(raw_comp[rb[0]]) if rb[0] in raw_comp else rb[1]
+                if ra[1] != want:
+                    ctx.violation('section:derive', 'compute flag of a derived parameter is not as the [Derive] section says',
+                                  small, dict(name=rb[0], got=ra[1], want=want))
+        judge_compile(ctx, cfg, opt, model, obs, user, cout, comp, small)
+        # independence of the order of the lines
+        if check_order and len(lines) > 1:
+            perm = case.get('perm')
+            if perm is None:
+                perm = [int(i) for i in ctx.rng.permutation(len(lines))]
+            m2, o2 = make_pair(cfg)
+            l2 = [lines[i] for i in perm]
+            pp2, _, _ = parse_sections(l2, list(reversed(dlines)))
+            opt2, _ = make_recording_optimizer(m2, o2)
+            out2, _ = real_setup(pp2, opt2)
+            try:
+                opt2.compile_params()
+                cout2 = 0
+            except ValueError:
+                cout2 = 2
+            v2 = observe(opt2, m2, o2)
+            same = (out2, cout2) == (out, cout) and all(v2[k] == comp[k] for k in ('model', 'obs', 'dmodel', 'dobs', 'names',
+                                                                                   'values', 'bounds', 'priors', 'derived'))
+            if not same:
+                ctx.violation('section:order-dependence', 'the set-up depends on the order of the lines of the section',
+                              dict(small, perm=perm), dict(first={k: comp[k] for k in ('names', 'bounds', 'priors')},
+                                                          second={k: v2[k] for k in ('names', 'bounds', 'priors')}))
+
+
 def run(ctx):
     from taurex.log.logger import root_logger
     import logging
@@ -734,6 +1093,14 @@ def run(ctx):
         cfg = gen_cfg(rng)
         n = int(rng.integers(3, maxlen + 1))
         run_sequence(ctx, dict(cfg=cfg), gen=dict(rng=rng, n=n))
+    for _ in range(ctx.n(500, 6000)):
+        cfg = gen_cfg(rng)
+        if cfg.get('real'):
+            m, o = make_pair(cfg)
+            mt, ot = settings_of(m, o)
+            cfg = dict(cfg, model=mt, obs=ot, dmodel=derived_view(m), dobs=derived_view(o))
+        lines, dlines = gen_section(rng, cfg)
+        run_section(ctx, dict(cfg=cfg, fitting=lines, derive=dlines))
     malformed(ctx)
 
 
@@ -769,4 +1136,7 @@ def replay(ctx, case):
     root_logger.setLevel(logging.CRITICAL)
     if 'cfg' not in case and 'case' in case:
         case = case['case']
-    run_sequence(ctx, case)
+    if case.get('type') == 'section':
+        run_section(ctx, case)
+    else:
+        run_sequence(ctx, case)
